@@ -2,6 +2,7 @@ package querylog
 
 import (
 	"context"
+	"slices"
 	"strconv"
 	"strings"
 	"github.com/AdguardTeam/AdGuardHome/verifx/vtime"
@@ -68,7 +69,7 @@ func (l *queryLog) entryToJSON(
 		question["unicode_name"] = qhost
 	}
 
-	entIP := entry.IP
+	entIP := slices.Clone(entry.IP)
 	anonFunc(entIP)
 
 	jsonEntry = jobject{
